@@ -79,15 +79,12 @@ def m_fold(tr, c):
             cap = tr.cap
     # item storage: Option<Item> laid out like the element
     tr.tmpn += 1
-    if it.node.tag == "Rev":
-        innern = it.node.f("inner")
-        if innern.tag == "VecIntoIter":
-            a = tr.deref(VLoc(Loc(innern.f("vec"), it.idxs)))
-            item = tr.clone(a.node.elem, f"folditem{tr.tmpn}", [], tr.cur.storage)
-        elif innern.tag == "Range":
-            item = tr.alloc(parse_type("usize"), f"folditem{tr.tmpn}", [], tr.cur.storage)
-        else:
-            raise TranslateError("fold over this iterator is not modelled")
+    base = it.node.f("inner") if it.node.tag == "Rev" else it.node
+    if base.tag == "VecIntoIter":
+        a = tr.deref(VLoc(Loc(base.f("vec"), it.idxs)))
+        item = tr.clone(a.node.elem, f"folditem{tr.tmpn}", [], tr.cur.storage)
+    elif base.tag == "Range":
+        item = tr.alloc(parse_type("usize"), f"folditem{tr.tmpn}", [], tr.cur.storage)
     else:
         raise TranslateError("fold over this iterator is not modelled")
     opt = tr.make_enum(None, f"foldopt{tr.tmpn}", [], tr.cur.storage, [("None", []), ("Some", [])])
@@ -98,7 +95,12 @@ def m_fold(tr, c):
     tr.emit(f"{done} = 0;")
     for _r in range(cap + 1):
         tr.emit(f"if (!{done}) {{")
-        rev_next(tr, c.inst, it, Loc(opt, []))
+        if it.node.tag == "Rev":
+            rev_next(tr, c.inst, it, Loc(opt, []))
+        else:
+            import itermodels
+            key = "<IntoIter as Iterator>::next" if it.node.tag == "VecIntoIter" else "<Range as Iterator>::next"
+            REG.lookup(key)(tr, itermodels.ICtx(tr, c.inst, key, [VRef(it.node, it.idxs)], Loc(opt, [])))
         tr.emit(f"if ({tr.lv(Loc(opt.discr, []))} == 0) {{ {done} = 1; }} else {{")
         tr.copy(Loc(acc_tmp, []), d)
         tr.call_closure(c.inst, c.args[2], [VLoc(Loc(acc_tmp, [])), VLoc(Loc(item, []))], d)
